@@ -704,6 +704,43 @@ Proof.
   destruct (c_ch0 c) eqn:E; cbn; unfold ob_append; rewrite Hs; cbn; repeat split; reflexivity.
 Qed.
 
+(* the reply text of that Close fits a short string, is a prefix of the full text and is cut
+   at a UTF-8 character boundary (so String::truncate cannot panic and the frame is well formed) *)
+Definition is_boundary (s : str) (e : nat) : Prop :=
+  e = O \/ match nth_error s e with Some b => is_cont b = false | None => True end.
+
+Lemma boundary_back_le fuel s e : (boundary_back fuel s e <= e)%nat.
+Proof.
+  revert e. induction fuel as [|f IH]; intro e; cbn [boundary_back]; [lia|].
+  destruct (nth_error s e) as [b|]; [|lia]. destruct (is_cont b); [|lia].
+  specialize (IH (e - 1)%nat). lia.
+Qed.
+
+Lemma boundary_back_boundary fuel s e : (e <= fuel)%nat -> is_boundary s (boundary_back fuel s e).
+Proof.
+  revert e. induction fuel as [|f IH]; intros e He; cbn [boundary_back].
+  - left. lia.
+  - destruct (nth_error s e) as [b|] eqn:E.
+    + destruct (is_cont b) eqn:C; [apply IH; lia|]. right. rewrite E. exact C.
+    + right. rewrite E. exact I.
+Qed.
+
+Theorem trunc255_spec text :
+  (length (trunc255 text) <= 255)%nat /\
+  (exists rest, text = trunc255 text ++ rest) /\
+  ((length text <= 255)%nat -> trunc255 text = text) /\
+  is_boundary text (length (trunc255 text)).
+Proof.
+  unfold trunc255. destruct (Nat.leb_spec (length text) 255) as [H|H].
+  - split; [exact H|]. split; [exists []; rewrite app_nil_r; reflexivity|]. split; [reflexivity|].
+    right. rewrite (proj2 (nth_error_None text (length text))); [exact I|lia].
+  - pose proof (boundary_back_le 255 text 255) as Hle.
+    split; [rewrite firstn_length; lia|].
+    split; [exists (skipn (boundary_back 255 text 255) text); symmetry; apply firstn_skipn|].
+    split; [lia|].
+    rewrite firstn_length, Nat.min_l by lia. apply boundary_back_boundary. lia.
+Qed.
+
 Theorem exception_ignores_frames c f :
   c_phase c = PClientException -> process c f = (OOk, c).
 Proof. intro H. unfold process. destruct f. rewrite H. reflexivity. Qed.
